@@ -31,6 +31,38 @@ func (c *Ctx) mapOriginProv() *prov {
 	return newProv(c, h)
 }
 
+// statParams: the indexes of persistFields' document-count and term-frequency
+// map parameters, identified by the record they are written into: the
+// statistics record is the writeUvarints call whose two values are lookups in
+// two map parameters — first the document count, then the frequency sum (the
+// loader stores them, in that order, into the fields CollectionStats reads as
+// docCount and sumTotalTermFreq).
+func (c *Ctx) statParams() (docs, freq int, site ssa.CallInstruction) {
+	pf := c.MustFn("persistFields")
+	wu := c.MustFn("writeUvarints")
+	docs, freq = -1, -1
+	for _, s := range c.callsTo(wu) {
+		if s.Parent() != pf {
+			continue
+		}
+		vals := varargValues(s.Common().Args[1])
+		if len(vals) != 2 {
+			continue
+		}
+		l0, ok0 := vals[0].(*ssa.Lookup)
+		l1, ok1 := vals[1].(*ssa.Lookup)
+		if !ok0 || !ok1 {
+			continue
+		}
+		p0, okp0 := l0.X.(*ssa.Parameter)
+		p1, okp1 := l1.X.(*ssa.Parameter)
+		if okp0 && okp1 {
+			docs, freq, site = paramIndex(p0), paramIndex(p1), s
+		}
+	}
+	return
+}
+
 func mLabels(l labelSet) []string {
 	var out []string
 	for _, n := range l.names() {
@@ -138,11 +170,16 @@ func init() {
 			p := c.mapOriginProv()
 			pf := c.MustFn("persistFields")
 			docs, freq := map[string]bool{}, map[string]bool{}
+			di, fi, _ := c.statParams()
+			if di < 0 {
+				r.undecided("lanes", "", "-", "cannot find the statistics record (writeUvarints of two map lookups) in persistFields")
+				return
+			}
 			for _, site := range c.callsTo(pf) {
-				for _, m := range mLabels(p.Classify(site.Common().Args[1])) {
+				for _, m := range mLabels(p.Classify(site.Common().Args[di])) {
 					docs[m] = true
 				}
-				for _, m := range mLabels(p.Classify(site.Common().Args[2])) {
+				for _, m := range mLabels(p.Classify(site.Common().Args[fi])) {
 					freq[m] = true
 				}
 			}
@@ -236,33 +273,23 @@ func init() {
 		Floor: 8,
 		Doc:   "the two statistics never cross between persistFields' record positions, loadFields' decode positions, the Segment fields and the CollectionStats fields; TotalDocumentCount comes from footer.numDocs; unknown fields leave the zero struct; CollectionStats.Merge unconditionally adds each component to itself; the merger's per-field document tracker is cleared on every path before a field's terms are merged",
 		Run: func(c *Ctx, scope string, r *Report) {
-			// (1) persistFields: second writeUvarints carries (fieldDocs[id], fieldFreqs[id]) in that order
+			// (1) persistFields: the statistics record carries (docs, freq); every call site passes maps of the right lane
 			pf := c.MustFn("persistFields")
-			wu := c.MustFn("writeUvarints")
-			found := false
-			for _, site := range c.callsTo(wu) {
-				if site.Parent() != pf {
-					continue
-				}
-				vals := varargValues(site.Common().Args[1])
-				if len(vals) != 2 {
-					continue
-				}
-				l0, ok0 := vals[0].(*ssa.Lookup)
-				l1, ok1 := vals[1].(*ssa.Lookup)
-				if !ok0 || !ok1 {
-					continue
-				}
-				found = true
-				key := "persistFields/record-order"
-				if l0.X == ssa.Value(pf.Params[1]) && l1.X == ssa.Value(pf.Params[2]) {
-					r.ok(key, "persistFields", c.pos(site.Pos()), "record carries (docs, freq) in that order")
-				} else {
-					r.bad(key, "persistFields", c.pos(site.Pos()), "the statistics record does not carry (fieldDocs[id], fieldFreqs[id]) in that order")
-				}
-			}
-			if !found {
+			di, fi, recSite := c.statParams()
+			if di < 0 {
 				r.undecided("persistFields/record-order", "persistFields", c.pos(pf.Pos()), "cannot find the writeUvarints call that carries the two statistics")
+			} else {
+				r.ok("persistFields/record-order", "persistFields", c.pos(recSite.Pos()), fmt.Sprintf("record carries (%s[id], %s[id])", pf.Params[di].Name(), pf.Params[fi].Name()))
+				for _, site := range c.callsTo(pf) {
+					key := fnName(site.Parent()) + "/persistFields-args"
+					a, b := accessPath(site.Common().Args[di]), accessPath(site.Common().Args[fi])
+					// lane by the unit of what is accumulated is STAT-UNITS; here: the two arguments are distinct maps
+					if site.Common().Args[di] == site.Common().Args[fi] || (a == b && strings.Contains(a, ".")) {
+						r.bad(key, fnName(site.Parent()), c.pos(site.Pos()), "the same map is passed for both statistics")
+					} else {
+						r.ok(key, fnName(site.Parent()), c.pos(site.Pos()), "distinct maps for the two statistics")
+					}
+				}
 			}
 			// (2) loadFields: the value stored to fieldDocs is decoded before the one stored to fieldFreqs
 			lf := c.MustFn("(*Segment).loadFields")
